@@ -271,8 +271,12 @@ fn case(r: &mut Rng, max_threads: usize, ncalls: usize, res: &mut CaseResult) {
         _ => Segmenter::Whole,
     };
     let jitter = if r.bool() { Some(Rng::new(r.next())) } else { None };
+    let wmax = *r.pick(&[usize::MAX, usize::MAX, 1, 5, 64]);
     let (conn, h) = session::open_with(reflex, session::default_opts(), ConnectionTuning::default(), |h| {
-        h.with(|st| st.jitter = jitter);
+        h.with(|st| {
+            st.jitter = jitter;
+            st.write_max = wmax;
+        });
     });
     let mut conn = match conn {
         Ok(c) => c,
